@@ -330,6 +330,26 @@ def text_path(frames: List[Tuple[int, bytes]], r: Run) -> List[Tuple[str, str]]:
             continue
         if got != r.outputs:
             out.append((f"C13/text-{fmt}/differs-from-frame-api", f"text: {[fh(t) for _, t in got]} frames: {[fh(t) for _, t in r.outputs]}"))
+    # a compact log whose lines are cut in the middle of the last byte: the lone hex digit is read as a byte of its own
+    cut = [(c, d[:-1] + bytes([d[-1] >> 4])) for c, d in frames if len(d) >= 1]
+    text = "".join(f"({1000 + k}.000000) can0 {c:03X}#{d.hex().upper()[:-1]}\n" for k, (c, d) in enumerate(frames) if len(d) >= 1)
+    try:
+        with contextlib.redirect_stderr(_SINK):
+            got = [(i, bytes(t)) for i, t in drive_async(IsoTpStateMachine(list(r.ids)).read_telegrams(io.StringIO(text)))]
+        _SINK.seek(0)
+        _SINK.truncate()
+    except Exception as e:  # noqa
+        out.append((f"C13/text-log-cut/raises/{type(e).__name__}", f"{type(e).__name__}: {e}"))
+        return out
+    sm = IsoTpStateMachine(list(r.ids))
+    want: List[Tuple[int, bytes]] = []
+    try:
+        for c, d in cut:
+            want.extend((i, bytes(t)) for i, t in sm.decode_rx_frame(c, d))
+    except Exception:  # judged by the frame-level part of the check
+        return out
+    if got != want:
+        out.append(("C13/text-log-cut/differs-from-frame-api", f"text: {[fh(t) for _, t in got]} frames: {[fh(t) for _, t in want]}"))
     return out
 
 
